@@ -229,6 +229,7 @@ def f_core():
     add("pos-multi", cmd("p", [arg("p1", num=(1, None)), arg("f", "f", "flag", action="SetTrue"), arg("o", "o", "opt")]))
     add("pos-required-multi", cmd("p", [arg("p1", required=True), arg("p2", num=(0, None))]))
     add("pos-last", cmd("p", [arg("p1"), arg("rest", num=(1, None), last=True), arg("f", "f", action="SetTrue")]))
+    add("pos-multi-then-last", cmd("p", [arg("first", num=(1, None)), arg("rest", num=(1, None), last=True), arg("f", "f", action="SetTrue")]))
     add("pos-tva", cmd("p", [arg("p1"), arg("rest", num=(1, None), tva=True), arg("f", "f", "flag", action="SetTrue")]))
     add("pos-low-index-multi", cmd("p", [arg("files", num=(1, None), required=True), arg("target", required=True), arg("f", "f", action="SetTrue")]))
     add("pos-allow-missing", cmd("p", [arg("p1"), arg("p2", required=True), arg("f", "f", action="SetTrue")], allow_missing_positional=True))
